@@ -72,6 +72,23 @@ def run(tier, cases=None, only_engines=None):
                     if jmpi_attributable(texts[i], progs.cells_bytes(c["buf0"])[0].hex(), e):
                         key = JMPI_KEY
                     ck.violation(key, "program %d engine %s: %s" % (i, e, msg2), {"case": c, "engine": e, "text": texts[i]})
+    # sanitizer pass: the same programs through a library built with ASan/UBSan (memory errors inside the generator
+    # or interpreter that do not change the result are invisible to the comparison above)
+    done_idx = sorted(obs)
+    sub = done_idx if tier == "thorough" else done_idx[:: max(1, len(done_idx) // 48)]
+    aeng = ["interp", "gen0", "gen1", "gen2", "gen3"] if tier == "thorough" else ["gen0", "gen2"]
+    aobs, _ = progs.run_cases([cases[i] for i in sub], aeng, variant="asan")
+    nasan = 0
+    for k, per in sorted(aobs.items()):
+        i = sub[k]
+        so, nans = progs.spec_obs(cases[i])
+        for e in aeng:
+            nasan += 1
+            msg = progs.compare_obs(obs[i]["interp"], per[e], nans, "interp", e + "[asan]")
+            if msg and obs[i]["interp"].status == "ok":
+                ck.violation("asan:%s:%s" % (e, classify(msg)), "program %d engine %s under ASan/UBSan: %s" % (i, e, msg),
+                             {"case": cases[i], "engine": e, "text": texts[i], "variant": "asan"})
+    ck.setc("sanitizer_executions", nasan)
     ck.setc("programs", len(cases))
     ck.setc("programs_well_defined", st.get("done", 0))
     ck.setc("discarded_undefined", len(cases) - st.get("done", 0))
